@@ -17,7 +17,7 @@ func c05Joined(r *core.Report) {
 	info := p.Pkg("openapi3filter").TypesInfo
 	r.RunRule("C05.joined", "the text DecodeObject joins repeated values into never becomes a decoded value: in makeObject every use of the value variable of the range over `props` (stored into a map, handed to deepSet or any other call) stands where `strings.Contains(value, urlDecoderDelimiter)` has been tested and found false, or is that test itself, or a strings.Split by the delimiter — otherwise `filter[name]=a&filter[name]=b` decodes to the single string \"a\\x1fb\"", 1, func() {
 		fd := p.DeclOf("openapi3filter", "makeObject")
-		props := core.ParamObj(info, fd, "props")
+		props := paramAt(info, fd, 0) // (props, schema)
 		if props == nil {
 			core.Fail("makeObject: parameter props not found")
 		}
